@@ -861,6 +861,13 @@ def value_attr(interp, base, attr):
             nm = 'hx:regex.%s:%d' % (attr, len(interp.extern))
             interp.extern[nm] = lambda it, args, kwargs, base=base, attr=attr: call_method(it, base, attr, args, kwargs)
             return Builtin(nm)
+    if isinstance(base, (ListV, DictV)) and attr in ('append', 'extend', 'insert', 'pop', 'remove', 'clear', 'get', 'setdefault', 'update',
+                                                     'appendleft', 'popleft', 'add', 'discard', '__setitem__', '__getitem__', 'index', 'count',
+                                                     'items', 'keys', 'values', 'sort', 'reverse', 'copy'):
+        # the bound method as a value (handed to a listener as the answer callback, kept in a local): calling it acts on this very object
+        nm = 'hx:bound.%s:%d' % (attr, len(interp.extern))
+        interp.extern[nm] = lambda it, args, kwargs, base=base, attr=attr: call_method(it, base, attr, args, kwargs)
+        return Builtin(nm)
     if tag == 'err' and attr == 'args':
         # an error value stands for one of the module-level singletons, each built from exactly one message
         return ListV([Atom('message', [base], 'str')], 'tuple')
@@ -1737,6 +1744,8 @@ def call_builtin(interp, name, args, kwargs):
             import cmath as _cmath
             return Const(getattr(_cmath, short)(args[0].value))
         return Atom('math.' + short, args, 'bool')
+    if name in ('os.path.normcase', 'posixpath.normcase') and len(args) == 1:
+        return args[0]          # POSIX: the text itself (trusted base: the checks model a POSIX host)
     if name.startswith('ply.'):
         return Top('ply object', ignorance=False)
     if name.startswith('os.'):
